@@ -4,6 +4,7 @@ import FqModel.Codec
 import FqModel.C14Hash
 import FqModel.C14Json
 import FqModel.C14Xml
+import FqModel.C14Csv
 /-!
   driver for C14.  Case lines (everything binary/text is lower-case hex, `-` = empty):
 
@@ -284,6 +285,67 @@ def stepXmlSeq (input obs : String) : String :=
   | ["err"] => mkVerdict (some "xml-seq-error") (some m)
   | _ => "BADOP obs"
 
+/-! CSV -/
+open FqModel.Json FqModel.Csv in
+def rowsOfJV (v : JV) : Option (List Row) :=
+  match v with
+  | .arr rows => rows.mapM (fun r => match r with
+    | .arr fs => fs.mapM (fun f => match f with | .str s => some s | _ => none)
+    | _ => none)
+  | _ => none
+
+open FqModel.Json FqModel.Csv in
+def showRows (o : Option (List Row)) : String :=
+  match o with
+  | none => "err"
+  | some rows => String.ofList (wire (.arr (rows.map (fun r => .arr (r.map .str)))))
+
+open FqModel.Json FqModel.Csv in
+def stepCsv (dir input obs : String) : String :=
+  match dir with
+  | "rt" =>
+    match (unwireAll input).bind rowsOfJV with
+    | none => "BADOP csv-input"
+    | some rows =>
+      let mText := bytesOfChars (toCsv rows)
+      match words obs with
+      | ["err"] => mkVerdict (some "to_csv-error-in-domain") (some (hx mText))
+      | [t, d] =>
+        match parseO t with
+        | some (some implText) =>
+          match charsOfBytes implText with
+          | none => "PROPFAIL to_csv-not-utf8"
+          | some cs =>
+            let mDec := showRows (fromCsv cs)
+            -- the three known-finding classes (known_findings.json), excused only on failure
+            let known : Option String :=
+              if rows.any (fun r => r.any (fun f => ((String.ofList f).splitOn "\r\n").length > 1)) then some "csv-crlf-in-field"
+              else if rows.any (fun r => match r with | f :: _ => f.head? == some '#' | [] => false) then some "csv-comment-row"
+              else if rows.any (fun r => r == [[]]) then some "csv-single-empty-field"
+              else none
+            -- the round trip is claimed for rectangular tables with at least one column
+            let rect := match rows with
+              | [] => true
+              | r :: rs => !r.isEmpty && rs.all (fun x => x.length == r.length)
+            let ok := d == showRows (some rows) || !rect
+            let dv := if implText != mText || d != mDec then s!" ;DIVERGE model={hx mText} {mDec}" else ""
+            if ok then (if dv.isEmpty then "OK" else s!"DIVERGE model={hx mText} {mDec}")
+            else match known with
+              | some key => s!"KNOWN {key} from_csv(to_csv(x))={d}{dv}"
+              | none => s!"PROPFAIL roundtrip from_csv(to_csv(x))={d}{dv}"
+        | _ => "BADOP obs"
+      | _ => "BADOP obs"
+  | "dec" =>
+    match (bytesOfHex input).bind charsOfBytes with
+    | none => "BADOP csv-text"
+    | some cs =>
+      let m := showRows (fromCsv cs)
+      if obs == m then "OK"
+      else if m == "err" then mkVerdict (some "malformed-input-accepted") (some "err")
+      else if obs == "err" then mkVerdict none (some m)
+      else mkVerdict (some "wrong-value") (some m)
+  | _ => "BADOP csv-op"
+
 def hashFn (name : String) : Option (Bytes → Bytes) :=
   match name with
   | "md5" => some Hash.md5
@@ -360,6 +422,7 @@ def stepC14 (op obs : String) : String :=
   match words op with
   | "radix" :: dir :: args => stepRadix dir args obs
   | ["urlquery", dir, input] => stepUrlQuery dir input obs
+  | ["csv", dir, input] => stepCsv dir input obs
   | ["xmlarr", "rt", input] => stepXmlArr input obs
   | ["xmlseq", "rt", input] => stepXmlSeq input obs
   | ["json", dir, input] => stepJson false 0 dir input obs
